@@ -10,7 +10,7 @@ import (
 )
 
 func init() {
-	register(&Rule{ID: "SAT-overflow", Props: []string{"C02", "C09", "C08", "C05", "C12", "C15", "C16"}, Min: 10,
+	register(&Rule{ID: "SAT-overflow", Props: []string{"C02", "C09", "C08", "C05", "C12", "C15", "C16", "C06"}, Min: 10,
 		Doc: "G: Value.number() classifies a script number and returns its integer part saturated to the int64 range (Infinity, 1e300 -> MaxInt64), and toIntegerFloat returns a float64 that may be infinite. Census of their uses in the built-ins: (a) integer addition, subtraction or multiplication on such a saturated value wraps around unless the value was bounded from that side first (a dominating ordered comparison of that value whose surviving branch limits it); (b) a conversion of a toIntegerFloat result to an integer type is undefined for infinities and out-of-range values unless a dominating two-sided range test excludes them. A wrapped sum passes the clamp that follows it and becomes a negative slice bound: an index-out-of-range panic that escapes Run (`\"abc\".substr(1, Infinity)`)",
 		Run: ruleSatOverflow})
 }
@@ -310,6 +310,18 @@ func ruleSatOverflow(c *Ctx, r *R) {
 					if !ok || fb.Kind() != types.Float64 {
 						continue
 					}
+					// the decimal digits of a Number (ES5 9.8.1: the shortest digits that identify it) are the digits of its
+					// integer value only up to 2^53: an integer conversion that is printed with FormatInt / Itoa in base 10 needs
+					// that bound, whatever else makes the conversion itself safe
+					if printed := printedDecimal(x); printed != nil {
+						satFloatLimit = 9007199254740992.0 // 2^53
+						nC++
+						base := fmt.Sprintf("%s:digits", ssaFuncName(fn))
+						ord[base]++
+						okD := bounded(fn, x.X, x, true) && bounded(fn, x.X, x, false)
+						r.check(okD, fmt.Sprintf("%s#%d", base, ord[base]), c.Pos(instrPos(printed)), "the value printed as an integer is bounded by 2^53 on the path",
+							fmt.Sprintf("%s prints a Number through its integer value (strconv.%s of a converted float64) with no test on the path that keeps it within 2^53: beyond that an integer has more digits than the shortest representation ES5 9.8.1 prescribes - String(Math.pow(2, 60)) must be \"1152921504606847000\", not \"1152921504606846976\" (and the text names a different property)", ssaFuncName(fn), printed.Call.StaticCallee().Name()))
+					}
 					satFloatLimit = 9223372036854775808.0 // 2^63
 					if tb.Info()&types.IsUnsigned != 0 {
 						satFloatLimit = 18446744073709551616.0 // 2^64
@@ -361,6 +373,40 @@ func ruleSatOverflow(c *Ctx, r *R) {
 		}
 	}
 	r.ok("census", "-", fmt.Sprintf("%d arithmetic uses of saturated integers, %d integer conversions of toIntegerFloat results and %d other float64-to-integer conversions examined", nA, nB, nC))
+}
+
+// printedDecimal: the integer produced by the conversion is an operand of strconv.FormatInt / FormatUint with the constant
+// base 10, or of strconv.Itoa (directly or after another integer conversion).
+func printedDecimal(cv *ssa.Convert) *ssa.Call {
+	var find func(v ssa.Value, d int) *ssa.Call
+	find = func(v ssa.Value, d int) *ssa.Call {
+		if d > 2 || v.Referrers() == nil {
+			return nil
+		}
+		for _, ref := range *v.Referrers() {
+			switch x := ref.(type) {
+			case *ssa.Convert:
+				if c := find(x, d+1); c != nil {
+					return c
+				}
+			case *ssa.Call:
+				cal := x.Call.StaticCallee()
+				if cal == nil || cal.Pkg == nil || cal.Pkg.Pkg.Path() != "strconv" || len(x.Call.Args) == 0 || x.Call.Args[0] != v {
+					continue
+				}
+				switch cal.Name() {
+				case "Itoa":
+					return x
+				case "FormatInt", "FormatUint":
+					if k, ok := constInt(x.Call.Args[1]); ok && k == 10 {
+						return x
+					}
+				}
+			}
+		}
+		return nil
+	}
+	return find(cv, 0)
 }
 
 // satFloatLimit: the largest constant that counts as a range test for the float-to-integer conversion being judged (set
